@@ -1,4 +1,198 @@
-(** Harness glue for C15 (stub: no families yet). *)
-From Coq Require Import List String.
-From KV Require Import Glue.Val.
-Definition c15_run (fam : string) (args : list val) : option string := None.
+(** Harness glue for C15: consumer/builder histories, map_!/from_fn_! with closure
+    outcomes, destructure! patterns.  Also used by Glue/C11.v (builder histories). *)
+From Coq Require Import List ZArith Bool String.
+From KV Require Import Base.Prelude Model.Ledger Model.Destructure Glue.Val.
+Import ListNotations.
+Local Open Scope string_scope.
+
+(** ids of a zero-sized element type cannot be stored in the element: they all print as 0 *)
+Definition sid (zst : bool) (i : Z) : string := if zst then "0" else show_Z i.
+Definition show_ids (zst : bool) (l : list Z) : string := show_list (sid zst) l.
+
+Definition show_event (zst : bool) (e : event) : string :=
+  match e with
+  | Hand i => "H" ++ sid zst i
+  | Drop i => "D" ++ sid zst i
+  | Cl s n => "C" ++ sid zst s ++ ">" ++ sid zst n
+  end.
+Fixpoint show_events_dot (zst : bool) (l : list event) : string :=
+  match l with
+  | [] => "-"
+  | [e] => show_event zst e
+  | e :: r => show_event zst e ++ "." ++ show_events_dot zst r
+  end.
+
+Definition show_ret (zst : bool) (r : ret) : string :=
+  match r with
+  | RUnit => "u"
+  | RPanic => "PANIC"
+  | RNone => "N"
+  | RSome i => "S(" ++ sid zst i ++ ")"
+  | RArr l => "A" ++ show_ids zst l
+  | RNew k => "n" ++ show_nat k
+  end.
+
+Definition show_obs (zst : bool) (o : obs) : string :=
+  let '(r, sl, ev) := o in
+  show_ret zst r ++ "/" ++
+  (match sl with
+   | VC l => show_ids zst l
+   | VB l len full => show_ids zst l ++ "#" ++ show_nat len ++ show_bool full
+   | VGone => "-"
+   end)
+  ++ "/" ++ show_events_dot zst ev.
+
+Definition nat_of (v : val) : nat := Z.to_nat (as_Z v).
+
+Definition parse_op (v : val) : option op :=
+  match as_list v with
+  | [c; k; e] =>
+      let k := nat_of k in
+      match as_Z c with
+      | 1 => Some (ONext k)
+      | 2 => Some (ONextBack k)
+      | 3 => Some (OClone k None)
+      | 4 => Some (OClone k (Some (nat_of e)))
+      | 5 => Some (ODrop k)
+      | 6 => Some (OAssertEmpty k)
+      | 7 => Some (OPush k)
+      | 8 => Some (OBuild k)
+      | 9 => Some (OForget k)
+      | _ => None
+      end%Z
+  | _ => None
+  end.
+
+Fixpoint parse_ops (l : list val) : option (list op) :=
+  match l with
+  | [] => Some []
+  | v :: r => match parse_op v, parse_ops r with
+              | Some o, Some os => Some (o :: os)
+              | _, _ => None
+              end
+  end.
+
+Definition zseq (start : Z) (n : nat) : list Z := map (fun k => start + Z.of_nat k)%Z (seq 0 n).
+
+(** kind 0: ArrayConsumer::new([1..N]); 1: ArrayBuilder::new(); 2: ArrayConsumer::empty() *)
+Definition init_world (kind : Z) (N : nat) : world :=
+  if (kind =? 0)%Z then mkW [OC (c_new (zseq 1 N))] (Z.of_nat N + 1)
+  else if (kind =? 1)%Z then mkW [OB (b_new N)] 1
+  else mkW [OC (c_empty N)] 1.
+
+Definition hist_run (kind : Z) (N : nat) (zst : bool) (ops : list op) : string :=
+  match run (init_world kind N) ops with
+  | RunUB => "UB"
+  | RunInvalid => "INVALID"
+  | RunOk w os =>
+      match drop_all (w_objs w) with
+      | None => "UB"
+      | Some fin =>
+          show_fields [("ops", show_list (show_obs zst) os);
+                       ("end", show_events_dot zst fin)]
+      end
+  end.
+
+(* ------------------------------------------------------------------ map_! / from_fn_! *)
+
+Definition show_mres (zst : bool) (r : mres) : string :=
+  match r with
+  | MBuilt l => "B" ++ show_ids zst l
+  | MPanicked => "PANIC"
+  | MReturned => "RET"
+  | MDiverged => "DIVERGED"
+  | MUB => "UB"
+  end.
+
+(** a script of outcome codes; the k-th [Value] outcome yields the identity [base + k]
+    (the harness's closure takes a fresh element each time it produces one) *)
+Definition code_outcome (c : Z) (y : Z) : outcome :=
+  match c with
+  | 0 => OValue y
+  | 1 => OBreak
+  | 2 => OContinue
+  | 3 => OReturn
+  | _ => OPanic
+  end%Z.
+
+Fixpoint values_before (script : list Z) (k : nat) : nat :=
+  match k, script with
+  | S k', c :: r => (if (c =? 0)%Z then 1 else 0) + values_before r k'
+  | _, _ => 0
+  end%nat.
+
+Definition ledger_clo (script : list Z) (base : Z) : nat -> Z -> outcome :=
+  fun k _ => code_outcome (nth k script 4%Z) (base + Z.of_nat (values_before script k))%Z.
+
+Definition show_map_res (x : mres * list event * list Z) (with_leak : bool) : string :=
+  let '(r, ev, leak) := x in
+  show_fields ([("res", show_mres false r); ("ev", show_events_dot false ev)]
+               ++ (if with_leak then [("leak", show_ids false leak)] else [])).
+
+(** value-level closures for C11: value = 3 x + 1 *)
+Definition value_clo (script : list Z) : nat -> Z -> outcome :=
+  fun k x => code_outcome (nth k script 4%Z) (3 * x + 1)%Z.
+
+(* ------------------------------------------------------------------ destructure! *)
+
+Fixpoint parse_shape (fuel : nat) (v : val) : dval :=
+  match fuel with
+  | O => DLeaf 0
+  | S f => match v with
+           | VL l => DNode (map (parse_shape f) l)
+           | _ => DLeaf (as_Z v)
+           end
+  end.
+
+Fixpoint parse_pat (fuel : nat) (v : val) : dpat :=
+  match fuel with
+  | O => PUnder
+  | S f => match v with
+           | VL l => PNest (map (parse_pat f) l)
+           | VZ 0 => PUnder
+           | VZ 2 => PRestBind
+           | VZ 3 => PRestSkip
+           | _ => PBind
+           end
+  end.
+
+Definition show_dres (r : option dres) : string :=
+  match r with
+  | None => "MISMATCH"
+  | Some r =>
+      show_fields [("imm", show_ids false (d_imm r));
+                   ("bound", show_list (show_ids false) (d_bound r));
+                   ("end", show_ids false (d_end r))]
+  end.
+
+Definition c15_run (fam : string) (args : list val) : option string :=
+  if String.eqb fam "c15.hist" then
+    match args with
+    | [k; n; z; ops] =>
+        match parse_ops (as_list ops) with
+        | Some os => Some (hist_run (as_Z k) (nat_of n) (negb (as_Z z =? 0)%Z) os)
+        | None => None
+        end
+    | _ => None
+    end
+  else if String.eqb fam "c15.map_" then
+    match args with
+    | [n; script] =>
+        let N := nat_of n in
+        Some (show_map_res (map_by_val (ledger_clo (as_bytes script) (Z.of_nat N + 1)) (zseq 1 N)) true)
+    | _ => None
+    end
+  else if String.eqb fam "c15.from_fn_" then
+    match args with
+    | [n; script] =>
+        Some (show_map_res (from_fn_by_val (ledger_clo (as_bytes script) 1) (nat_of n)) false)
+    | _ => None
+    end
+  else if String.eqb fam "c15.destructure" then
+    match args with
+    | [kind; shape; pat] =>
+        Some (show_dres (destructure_m (nat_of kind) (map (parse_shape 8) (as_list shape))
+                                       (map (parse_pat 8) (as_list pat))))
+    | _ => None
+    end
+  else None.
